@@ -22,6 +22,8 @@ TEXT = {
     "C07": ("proof", "Lean 4 refinement theorem for the pure-Python map: for every capacity >= 4 and every finite history of __setitem__/__delitem__/get/__getitem__/__contains__/len/bool/pop/popitem/setdefault/update/copy/clear/items the executable model never raises anything but KeyError and answers exactly what a strictly sorted association list (dict observed in key order) answers; None is a value like any other; popitem removes the smallest key; capacities < 4 rejected. Proved through the structural invariant (order, occupancy (cap-1)//2, chain) preserved by _insert_recursive and _delete_recursive/_handle_underflow (all borrow/merge paths, root collapse). Model tied to the source by regenerated thresholds + the normalised source text of every modelled function (TiePy) and by a differential run (every return value + full structural dump, 5 key representations, None values) also checked against dict. 'len for any size': translator + deep run (partial, stated)."),
     "C08": ("proof", "Lean 4: on every valid state (hence after every history, by C07) items(a, b) of the model - the descent to the start leaf, bisect inside it, the chain walk and the exclusive end test - equals the filter a <= key < b of the strictly ascending entry list, for present/absent endpoints, None bounds, empty and inverted intervals; keys/values are its projections; the chain walk visits exactly the leaves in tree order. Differential run: bounded scans with endpoints from present/absent keys, sentinels and None vs the model and vs sorted(dict)."),
     "C09": ("proof", "Lean 4: the invariant PInv (strict key order, arity, separator bounds, leaves <= capacity, branches <= capacity-1, non-root nodes >= (capacity-1)//2, branch root >= 2 children, chain from self.leaves = leaves in order ending in None; same depth intrinsic to the height-indexed type) holds for BPlusTreeMap(cap) and is preserved by assignment, deletion and clear for every capacity >= 4, hence for every reachable state; no call raises. Code with D8 repaired (tie). Independent structural walk after every mutation + exhaustive small histories at capacities 4-6 + full dump correspondence. from_sorted_items: oracle + correspondence only so far (stated partial)."),
+    "C12": ("proof", "Lean 4 refinement theorem for the C extension model: for every capacity in [4, 2^16) and every finite history of __setitem__/__delitem__/__getitem__/__contains__/len and the wrapper's get/pop/setdefault/update, the model answers what a sorted association list (dict in key order) answers, reaches no error other than KeyError and never leaves the allocated node geometry; invariant (order, arity, bounds, capacity, size = entries, chain; no lower occupancy: deletions do not rebalance) preserved through leaf/branch splits and root growth. Fail-fast: the iterator raises RuntimeError as its first action whenever the stamps differ and every successful mutation strictly increases the stamp. Tied by regenerated constants, guards, split points, stamp increments and the first test of the iterator, and by a differential run through the type, a subclass and the package wrapper with four key representations, full structural dumps, and a dict oracle. Drained-iterator = contents: oracle + correspondence (stated partial)."),
+    "C13": ("proof", "Lean 4 on the C model with explicit slot geometry and reference-count events: no call on a valid state writes outside the allocated arrays (for all capacities and histories); for every __setitem__ (insert, overwrite, leaf split, branch split with separator ownership moving up, root growth), __delitem__, lookup and destroy, slots-after ++ DECREFs = slots-before ++ INCREFs as multisets, so every occupied slot owns exactly one reference and destroy releases exactly the slots; the constructor stores exactly the capacity it accepts (4 <= c < 2^16). Legacy lemmas prove the pre-repair leak (D9) and truncation (D11) by decide. Tied by the regenerated per-function inventory of Py_INCREF/DECREF sites, header field widths and constructor guards. Observed, not proved (stated): allocator protocol for subclass instances (D10), GC, use-after-free — AddressSanitizer replay of every history, refcount audit of every tracked object after every mutation and after destroy, subclass/wrapper lifecycles, capacities across and beyond 16 bits."),
     "C16": ("proof", "Lean 4 theorems over an executable model of CompactArena: a well-formedness invariant preserved by every call (all histories from new(), by induction), each call refines a partial map handle->item (fresh non-null handles, exact get/contains, release-once, exact counters, clear, compact keeps live items), allocate fails only when 2^32-1 slots are live. Tied to the code by a regenerated guard/constant tie and a differential run of the real arena vs the compiled model including free-list order."),
 }
 NOTE = "Trusted: Lean kernel; axioms propext/Classical.choice/Quot.sound only (audited per run); tools/extract.py and the harness; Vec/slice/mem::take/binary_search semantics; lawful total order on keys; arena slots < 2^32-1 for tree-level theorems (C16 treats the limit). The theorems are about the Lean model; the model is tied to /repo by regenerated tie lemmas and by the per-run correspondence (same op lines on real code and compiled model, all outputs and dumps diffed)."
@@ -60,10 +62,11 @@ def main():
             {"name": "lean-model", "path": "lean", "serves_properties": claimed, "kind_free_text": "Lean 4 models, theorems (BPT/Props), tie lemmas (BPT/Generated), compiled line-protocol driver (Driver/)"},
             {"name": "rust-harness", "path": "harness/rust", "serves_properties": [c for c in claimed if c not in ("C07", "C08", "C09", "C12", "C13")], "kind_free_text": "in-process driver of the real Rust code with independent oracles; emits the op lines the model replays"},
             {"name": "py-harness", "path": "harness/py", "serves_properties": [c for c in claimed if c in ("C07", "C08", "C09")], "kind_free_text": "in-process driver of the real pure-Python map with dict / structural oracles; emits the op lines the model replays"},
+            {"name": "c-harness", "path": "harness/py/charness.py", "serves_properties": [c for c in claimed if c in ("C12", "C13")], "kind_free_text": "builds bplustree_c from /repo's sources (plain + AddressSanitizer, hook flag on), drives it in-process through the type, a subclass and the package wrapper with dict / refcount oracles"},
             {"name": "translator", "path": "tools/extract.py", "serves_properties": claimed, "kind_free_text": "regenerates constants, thresholds, guards and unsafe/ownership inventories from /repo into Lean"},
         ],
         "checks": checks,
-        "notes": "See DESIGN.md. Properties not yet claimed are listed under not_applicable with the reason 'check not built yet'; they are being added one by one.",
+        "notes": "See DESIGN.md. All sixteen properties are claimed; clauses that live in a runtime the model cannot express are named in each check's level_note.",
         "not_applicable": [{"property_id": p["id"], "reason": "check not built yet in this session (model/theorems in progress); the technique applies, see DESIGN.md §4"} for p in props if p["id"] not in claimed],
     }
     json.dump(m, open(os.path.join(ROOT, "MANIFEST.json"), "w"), indent=1)
